@@ -101,6 +101,8 @@ inductive Ev where
   | start
   /-- an `open` succeeded and produced this descriptor (bookkeeping, not printed) -/
   | got (fd : Nat)
+  /-- an `opendir` succeeded: a directory handle is open until the next `closedir` (bookkeeping) -/
+  | dirOpened
   deriving DecidableEq, Repr
 
 /-- an event the property forbids for a message that is not permitted: any libc file-system call
